@@ -189,3 +189,45 @@ Definition holds_C17_pipe (n : Z) (g : ghost) (t : option twa) : bool :=
 Definition holds_C17_store (n : Z) (gs : gstore) (ids : list Z) (s : mstore) : bool :=
   forallb (fun id => holds_C17_pipe n (gget gs id) (sget s id)) ids &&
   forallb (fun kv => holds_C17_pipe n (gget gs (fst kv)) (Some (snd kv))) s.
+
+(* ------------------------------------------------------------------------------------ *)
+(* Freshness of what is delivered.  [delivered_id h b]: the request id whose result the market
+   hook hands to UpdatePriceList in the block at height h, b being the band state that hook reads
+   (i.e. after the band hook); None when nothing is delivered. *)
+Definition delivered_id (h : Z) (b : bstate) : option Z :=
+  if b_valid b && negb (b_block b =? 0) && (h mod 20 =? 0) then
+    match lookup_result (b_results b) (b_last b) with
+    | [] => None
+    | _ :: _ => Some (b_last b)
+    end
+  else None.
+
+Fixpoint zmem (x : Z) (l : list Z) : bool :=
+  match l with [] => false | y :: r => (x =? y) || zmem x r end.
+
+(* the property: the result of a request is delivered to the averaging windows at most once
+   ([consumed] = the ids delivered so far) *)
+Definition holds_C17_fresh (consumed : list Z) (d : option Z) : bool :=
+  match d with Some r => negb (zmem r consumed) | None => true end.
+
+Definition consume (consumed : list Z) (d : option Z) : list Z :=
+  match d with Some r => r :: consumed | None => consumed end.
+
+Definition pconsumed (p : pstate) (consumed : list Z) (o : pop) : list Z :=
+  match o with
+  | Block h => consume consumed (delivered_id h (band_begin_block h (p_band p)))
+  | _ => consumed
+  end.
+
+(* KF class C17-F4: the check at this block follows a "first check" (check flag reset by a
+   registration or by a new price-requiring asset: TempFetchPriceID = 0), no request has been
+   acknowledged since, and the one the check takes for new has already been delivered *)
+Definition kf_C17_4 (p : pstate) (consumed : list Z) (o : pop) : bool :=
+  match o with
+  | Block h =>
+      match delivered_id h (band_begin_block h (p_band p)) with
+      | Some r => zmem r consumed && (b_temp (p_band p) =? 0)
+      | None => false
+      end
+  | _ => false
+  end.
